@@ -106,6 +106,20 @@ pub fn alternatives(class: HintClass, honest: &[F], rng: &mut Rng) -> Vec<Alt> {
                 let lo2 = F::from_canonical_u64(lo) - F::from_canonical_u64(1 << 32);
                 push("lh:carry", vec![lo2, f(hi.wrapping_add(1))], false);
             }
+            // field-compensated pairs: lo' arbitrary 32-bit, hi' solved in the FIELD from
+            // v = lo' + hi' * 2^32 (satisfies the recombination constraint exactly; only the
+            // range checks on lo and hi can reject it)
+            {
+                let two32 = F::from_canonical_u64(1 << 32);
+                let vf = F::from_canonical_u64(lo) + F::from_canonical_u64(hi) * two32;
+                let inv = two32.inverse();
+                for (nm, lo2) in [("lh:field-comp,lo+1", lo.wrapping_add(1) & 0xFFFF_FFFF), ("lh:field-comp,lo-1", lo.wrapping_sub(1) & 0xFFFF_FFFF), ("lh:field-comp,lo=0", 0), ("lh:field-comp,lo=rand32", rng.u32() as u64)] {
+                    if lo2 != lo {
+                        let hi2 = (vf - F::from_canonical_u64(lo2)) * inv;
+                        push(nm, vec![f(lo2), hi2], false);
+                    }
+                }
+            }
             push("lh:swap", vec![f(hi), f(lo)], false);
             push("lh:flip-hi-bit0", vec![f(lo), f(hi ^ 1)], false);
             push("lh:rand", vec![f(rng.felt()), f(rng.felt())], false);
